@@ -1122,7 +1122,12 @@ def tril(m, *args, **kwargs):
 @implements(np.einsum)
 def einsum(*operands, out=None, **kwargs):
     subscripts, *operands = operands
-    ret_units = _validate_units_consistency(operands)
+    # a contraction is multilinear: the result carries the product of the units
+    # of the operands (in the sublist form the first argument is an operand too)
+    if isinstance(subscripts, str):
+        ret_units = np.prod(get_units(operands))
+    else:
+        ret_units = np.prod(get_units((subscripts, *operands)))
 
     if out is not None:
         out_view = np.asarray(out)
